@@ -364,7 +364,12 @@ def build_ops(tier: str, seed: int) -> Tuple[List[Dict[str, Any]], List[Tuple]]:
                                     not isinstance(mv.get(k), bool) and abs(mv[k]) > 4096
                                     for k in lkeys)]
                     assigns += r.sample(muts, min(len(muts), 10))
+            # a SYSTEM parameter that is left out is filled in from the wall clock: such an
+            # operation has no outcome that could be compared between two processes
+            clocked = [p["name"] for p in rq["params"] if p["p"] == "SYSTEM"]
             for a in assigns:
+                if any(n not in a for n in clocked):
+                    continue
                 ops.append((li, rq["name"], "enc", a))
         # decode ops are derived at run time from the first successful encoding per message
     return models, ops
